@@ -3,13 +3,17 @@
 #define ITEM_TYPES_H
 typedef struct { unsigned long len; unsigned long id; } cstring;   /* id: abstract content identity (equal id <=> equal bytes) */
 static inline unsigned long cstring__size(cstring *s) { return s->len; }
+static inline _Bool cstring__eq(cstring *a, cstring *b) { return a->id == b->id && a->len == b->len; }
 static inline cstring cstring__empty(void) { cstring s; s.len = 0; s.id = 0; return s; }
 unsigned long __CPROVER_uninterpreted_strid(const char *);
 static cstring g_lit;
 static inline cstring *cstring__lit(const char *p) { g_lit.len = 5; g_lit.id = __CPROVER_uninterpreted_strid(p); return &g_lit; }
 
+#define VAL_EQ_str(a, b) ((a).id == (b).id && (a).len == (b).len)
 #define DECL_OPT(N, T) struct opt_##N { _Bool has; T val; }; \
-  static inline T *opt_##N##__value(struct opt_##N *o) { __CPROVER_assert(o->has, "optional: value()/operator* on an empty optional"); return &o->val; }
+  static inline T *opt_##N##__value(struct opt_##N *o) { __CPROVER_assert(o->has, "optional: value()/operator* on an empty optional"); return &o->val; } \
+  /* boost::optional relational operators: two empty optionals are equal, an empty one differs from any value */ \
+  static inline _Bool opt_##N##__eq(struct opt_##N *a, struct opt_##N *b) { return (!a->has && !b->has) || (a->has && b->has && VAL_EQ_##N(a->val, b->val)); }
 
 /* abstract sequence: size, one watched element (index wi, value wv); any other element is arbitrary */
 /* add_* units observe what is stored: the last pushed value and the number of pushes per sequence type */
